@@ -1,6 +1,7 @@
 (* C05 — out-of-sample transform is a per-sample map labelled by the new data. Statements only. *)
 From Coq Require Import String ZArith List Bool.
 From XV Require Import Base.Scalar Base.Mat Model.ScalerLib Model.Eof Model.Rot Gen.T7unseen Proofs.C05_proofs Proofs.C05_tie.
+From XV Require Model.Mic Gen.T7mic Proofs.Mic_proofs Proofs.Mic_tie.
 Import ListNotations.
 
 (* scaling with the fitted per-feature statistics followed by projection on the components:
@@ -46,3 +47,28 @@ Theorem C05_no_reindex_on_unseen_path :
   In ("MultiIndexConverter"%string, UTransformReference) unseen_behaviour.
 Proof. exact (conj unseen_never_reindexes multiindex_from_transform_call). Qed.
 Print Assumptions C05_no_reindex_on_unseen_path.
+
+(* MultiIndexConverter as a state machine (parameters regenerated from the source, Gen/T7mic.v): in every
+   reachable state - any history of fits, transforms and inverse calls - the unseen path restores, on every
+   dimension, exactly the coordinates of the data just transformed, in the data's own dimension order *)
+Theorem C05_multiindex_labels_from_new_data : forall (h : list Mic.op) (X : Mic.data) (s' : Mic.st) (X' : Mic.data),
+  Mic_proofs.fits_wf h ->
+  Mic.transform T7mic.src_params (fst (Mic.run T7mic.src_params Mic.init h)) X = Some (s', X') ->
+  exists R, Mic.inverse T7mic.src_params s' Mic.RefTransform X' = Some R /\ map fst R = map fst X /\
+            forall d, Mic.lookup d R = Mic.lookup d X.
+Proof. exact Mic_proofs.unseen_labels_from_new_data. Qed.
+Print Assumptions C05_multiindex_labels_from_new_data.
+
+(* entries removed between transform and the back-transformation (fully missing samples): the remaining
+   positions select their own labels *)
+Theorem C05_multiindex_labels_after_removal : forall d orig pos X, Mic.lookup d X = Some (Mic.Plain pos) ->
+  Mic.size orig <> length pos -> forallb (fun i => Nat.ltb i (Mic.size orig)) pos = true ->
+  Mic.inv_step T7mic.src_params (Some X) (d, orig) = Some (Mic.update d (Mic.take_pos orig pos) X).
+Proof. exact Mic_proofs.inverse_after_removal. Qed.
+Print Assumptions C05_multiindex_labels_after_removal.
+
+Theorem C05_unseen_wrapper_uses_transform_reference :
+  In ("inverse_transform_scores_unseen"%string, Mic.RefTransform) T7mic.wrapper_refs /\
+  In ("inverse_transform_scores"%string, Mic.RefFit) T7mic.wrapper_refs.
+Proof. exact Mic_tie.wrappers_split. Qed.
+Print Assumptions C05_unseen_wrapper_uses_transform_reference.
